@@ -1,0 +1,29 @@
+//go:build verif
+
+// Package verifhook marks the points of the write path where the verification harness (build tag "verif")
+// observes, and may suspend, a goroutine. With the tag, Yield calls the process-global handler installed by
+// the harness (none installed: nothing happens).
+package verifhook
+
+import (
+	"context"
+	"sync/atomic"
+)
+
+type handlerFn func(ctx context.Context, point string, kv ...any)
+
+var handler atomic.Value // of handlerFn
+
+// SetHandler installs (or, with nil, removes) the process-global handler called at every Yield point.
+// The handler runs on the goroutine that reached the point and may block it. Points documented as being
+// reached while a mutex of the code under test is held must only be recorded, never blocked on.
+func SetHandler(h func(ctx context.Context, point string, kv ...any)) {
+	handler.Store(handlerFn(h))
+}
+
+// Yield marks a scheduling/observation point: kv are alternating keys and values describing it.
+func Yield(ctx context.Context, point string, kv ...any) {
+	if h, _ := handler.Load().(handlerFn); h != nil {
+		h(ctx, point, kv...)
+	}
+}
